@@ -75,12 +75,20 @@ class _randobj:
                     
                 # Call the user's constructor
                 ro_i.ctor_level += 1
-                super().__init__(*args, **kwargs)
+                try:
+                    super().__init__(*args, **kwargs)
+                except Exception:
+                    ro_i.ctor_level -= 1
+                    if ro_i.ctor_level == 0:
+                        pop_srcinfo_mode()
+                    raise
                 ro_i.ctor_level -= 1
                 
                 if ro_i.ctor_level == 0:
-                    self.build_field_model(None)
-                    pop_srcinfo_mode()
+                    try:
+                        self.build_field_model(None)
+                    finally:
+                        pop_srcinfo_mode()
             
         # Add the interposer class
         ret = type(T.__name__, (randobj_interposer,), dict())
@@ -208,6 +216,9 @@ class _randobj:
                                         fo.c(self)
                                     except Exception as e:
                                         print("Exception while processing constraint: " + str(e))
+                                        # Leave the shared construction state idle
+                                        pop_constraint_scope()
+                                        clear_exprs()
                                         raise e
                                     fo.set_model(pop_constraint_scope())
                                     model.add_constraint(fo.model)
@@ -221,6 +232,9 @@ class _randobj:
                                         fo.c(self)
                                     except Exception as e:
                                         print("Exception while processing constraint: " + str(e))
+                                        # Leave the shared construction state idle
+                                        pop_constraint_scope()
+                                        clear_exprs()
                                         raise e
                                     fo.set_model(pop_constraint_scope())
                                     fo.model.is_dynamic = True
